@@ -132,6 +132,16 @@ def run(ctx):
     sigs = set()
     # (1) random error forests: real tree classes vs model
     forests = [[gen_error(r, 3) for _ in range(r.randrange(0, 5))] for _ in range(n_forest)]
+
+    def fix_domain(es, has_str):
+        # compare_paths_lt cannot order a string path against an empty tuple (RuntimeError); the validator never produces
+        # both under one document path (see DESIGN, C11), so forests mixing them are outside the domain
+        for e in es:
+            if has_str and e["sp"] == []:
+                e["sp"] = ["a"]
+            fix_domain(e["ch"], has_str)
+    for f in forests:
+        fix_domain(f, '"s"' in json.dumps(f))
     lines = []
     for f in forests:
         out = ["T", str(len(f))]
